@@ -7,7 +7,7 @@ N_QUICK = 2400
 N_THOROUGH = 60000
 SHARD = 200
 SHRINK_KEYS = ["rows", "quad", "lin", "labels"]
-RULE = ("BQMs (float64/float32/object dtype, object models with Python float or mixed int/float biases; int, string, float, nested-tuple and mixed labels; SPIN/BINARY; 0-12 variables) "
+RULE = ("BQMs (float64/float32/object dtype, object models with Python float or mixed int/float biases; int (incl. sparse non-range sets of small integers, shuffled and shifted ranges, integers beyond 2^53), string, float, nested-tuple and mixed labels; SPIN/BINARY; 0-12 variables) "
         "through to_serializable->from_serializable directly, as JSON text, through DimodDecoder, with use_bytes, pickle protocols 2-5, "
         "deepcopy, copy, .copy(): coefficients before/after and the emitted vector form compared in Coq; COO text (non-negative integer "
         "labels, with/without header); sample sets (SPIN, BINARY, INTEGER, DISCRETE, REAL; sample dtypes int8..int64, uint8, bool, float32/64; "
